@@ -4,6 +4,7 @@ pub mod prng;
 pub mod gal;
 pub mod report;
 pub mod mapmodel;
+pub mod classfile;
 
 use std::path::PathBuf;
 
